@@ -8,24 +8,32 @@ From Erbium Require Import Proofs.DhcpPool Proofs.DhcpPoolCrash Proofs.DhcpServe
 
 (* S01 -- totality.  Full statement wanted:
      forall cfg st t1 t2 e b ans, is_panic (server_step cfg st t1 t2 e b ans) = false.
-   Proved under two hypotheses, both necessary for the model as it stands:
-   (1) every stored row has start <= expiry (else `expiry - start` in the revive step
-       underflows: the model's Panicked answer) -- an invariant of every store the server
-       itself wrote (C10_record_covers);
-   (2) the encoded reply fits a UDP datagram (<= 65507 octets): new_udp4 computes
-       `20_u16 + len as u16` with overflow checks.  Missing to discharge (2) from the
-       configuration: a bound on the total size of the option values a policy chain can
-       put into one reply (no such bound exists in the loader). *)
+   Proved under one hypothesis, necessary for the model (and the code) as it stands: every stored
+   row has start <= expiry -- else `expiry - start` in the revive step underflows, the model's
+   Panicked answer; an invariant of every store the server itself wrote (C10_record_covers), not of
+   a store edited by hand.
+   (Until the repair eac8c30 a second hypothesis was needed: the encoded reply fits a UDP datagram.
+   The loader puts no bound on the option data a policy chain selects, and `20_u16 + len as u16` /
+   `8_u16 + len as u16` in new_ipv4 / new_udp4 overflowed for 65508..65535 octets and truncated
+   above; such a reply is now logged and not sent, and the step is total without that hypothesis.) *)
 Theorem S01_total_partial : forall cfg st t1 t2 e b ans,
   rows_wf (fst st) ->
-  (forall r, reply_of cfg st t2 e b ans = Some r -> lenN (encode r) <= 65507) ->
   is_panic (server_step cfg st t1 t2 e b ans) = false.
 Proof. exact step_no_panic. Qed.
 Check S01_total_partial : forall cfg st t1 t2 e b ans,
   rows_wf (fst st) ->
-  (forall r, reply_of cfg st t2 e b ans = Some r -> lenN (encode r) <= 65507) ->
   is_panic (server_step cfg st t1 t2 e b ans) = false.
 Print Assumptions S01_total_partial.
+
+(* a frame is only ever built for a reply that fits one UDP datagram (65535 - 20 - 8 octets) *)
+Theorem S01_frame_fits : forall cfg st t1 t2 e b ans st' f r,
+  server_step cfg st t1 t2 e b ans = Ok (st', Some f) ->
+  reply_of cfg st t2 e b ans = Some r -> lenN (encode r) <= 65507.
+Proof. exact frame_fits. Qed.
+Check S01_frame_fits : forall cfg st t1 t2 e b ans st' f r,
+  server_step cfg st t1 t2 e b ans = Ok (st', Some f) ->
+  reply_of cfg st t2 e b ans = Some r -> lenN (encode r) <= 65507.
+Print Assumptions S01_frame_fits.
 
 (* S02 -- lifts C13: a frame only for a DISCOVER or an acceptable REQUEST ... *)
 Theorem S02_frame_only_when_answerable : forall cfg st t1 t2 e b ans st' f,
@@ -38,16 +46,21 @@ Check S02_frame_only_when_answerable : forall cfg st t1 t2 e b ans st' f,
 Print Assumptions S02_frame_only_when_answerable.
 
 (* ... otherwise the state (lease rows and server identifiers) is exactly what it was.
-   The one exception the code has: an answerable message whose hardware address is shorter
-   than six octets is allocated a lease and then not answered ("Cannot send reply to invalid
-   client hardware addr") -- the lease is written before the check. *)
+   The two exceptions the code has: an answerable message whose hardware address is shorter
+   than six octets ("Cannot send reply to invalid client hardware addr"), and a reply that does not
+   fit one UDP datagram ("Reply of .. octets does not fit in a UDP datagram, not sent"): the lease
+   is written before either check. *)
 Theorem S02_silence_is_inert : forall cfg st t1 t2 e b ans st',
   server_step cfg st t1 t2 e b ans = Ok (st', None) ->
-  st' = st \/ exists m, decode b = Ok m /\ answerable (snd st) (e_serverip e) m /\ lenN (d_chaddr m) < 6.
+  st' = st \/ exists m, decode b = Ok m /\ answerable (snd st) (e_serverip e) m /\
+                        (lenN (d_chaddr m) < 6 \/
+                         exists r, reply_of cfg st t2 e b ans = Some r /\ MAX_UDP4_PAYLOAD < lenN (encode r)).
 Proof. exact silent_step_inert. Qed.
 Check S02_silence_is_inert : forall cfg st t1 t2 e b ans st',
   server_step cfg st t1 t2 e b ans = Ok (st', None) ->
-  st' = st \/ exists m, decode b = Ok m /\ answerable (snd st) (e_serverip e) m /\ lenN (d_chaddr m) < 6.
+  st' = st \/ exists m, decode b = Ok m /\ answerable (snd st) (e_serverip e) m /\
+                        (lenN (d_chaddr m) < 6 \/
+                         exists r, reply_of cfg st t2 e b ans = Some r /\ MAX_UDP4_PAYLOAD < lenN (encode r)).
 Print Assumptions S02_silence_is_inert.
 
 (* S03 -- if a frame is produced: it is the Ethernet/IPv4/UDP frame around `encode reply`,
